@@ -189,22 +189,26 @@ func runCheck(prop, tier string, seed uint64, replay string) int {
 	}
 	c.sc = sc
 	for _, sm := range sc.Report.Seams {
-		if sm.Kind == "go" {
+		if sm.Kind == "go" || sm.Kind == "timer" {
 			bubbleOn = true
 		}
 	}
 	if bubbleOn {
-		c.logf("the tree starts goroutines: worlds run inside a synctest bubble with the goroutine scheduling seam")
+		c.logf("the tree starts goroutines or timers: worlds run inside a synctest bubble (fake clock, goroutine scheduling seam)")
 	}
 	if len(sc.Report.Unseamed) > 0 {
-		// A source of nondeterminism the simulator does not own: the check
-		// cannot decide the property by simulation; it still runs the real
-		// binary comparison where that is meaningful, but must not pass silently.
-		fmt.Fprintln(os.Stderr, "INFRASTRUCTURE: the tree contains nondeterminism sources without a seam:")
+		// Sources of nondeterminism the simulator does not own. They do not make
+		// the checks unsound (an alarm is only ever raised on an observed,
+		// re-confirmed difference), but the scheduler cannot steer them: the
+		// run says so, records them in the evidence file, and leans harder on
+		// the uncontrolled process dimension (the identical schedule in more
+		// fresh processes under different GOMAXPROCS).
+		fmt.Fprintln(os.Stderr, "WARNING: the tree contains nondeterminism sources without a seam (covered only by repeated executions in separate processes):")
 		for _, u := range sc.Report.Unseamed {
 			fmt.Fprintln(os.Stderr, "  ", u)
 		}
-		return 2
+		uncontrolled = len(sc.Report.Unseamed)
+		c.ev.Extra["uncontrolled_sources"] = sc.Report.Unseamed
 	}
 	if replay != "" {
 		return runReplay(c, replay)
@@ -233,11 +237,11 @@ func runCheck(prop, tier string, seed uint64, replay string) int {
 			us = append(us, u)
 		}
 		sort.Strings(us)
-		fmt.Fprintln(os.Stderr, "INFRASTRUCTURE: unseamed nondeterminism met at run time:")
+		fmt.Fprintln(os.Stderr, "WARNING: nondeterminism the scheduler could not canonicalise was met at run time:")
 		for _, u := range us {
 			fmt.Fprintln(os.Stderr, "  ", u)
 		}
-		return 2
+		c.ev.Extra["uncontrolled_at_run_time"] = us
 	}
 	c.writeEventLog()
 	if os.Getenv("VERIF_NO_EVIDENCE") != "" {
